@@ -1,4 +1,4 @@
-use crate::math::{float_gt, float_lt, float_ne};
+use crate::math::{float_gt, float_ne};
 #[allow(unused_imports)]
 use crate::prelude::*;
 use crate::solvers::SolverError;
@@ -417,7 +417,7 @@ impl Display for StandardLinearModel {
         let mut is_first = true;
         let offset = if self.objective_offset.is_zero() {
             "".to_string()
-        } else if float_lt(self.objective_offset, 0.0) {
+        } else if self.objective_offset < 0.0 {
             format!(" - {}", self.objective_offset.abs())
         } else {
             format!(" + {}", self.objective_offset)
@@ -461,7 +461,8 @@ impl Display for StandardLinearModel {
 /// * `value` - Coefficient value
 /// * `is_first` - Whether this is the first term in an expression
 pub fn format_var(name: &str, value: f64, is_first: bool) -> String {
-    let sign = if float_lt(value, 0.0) {
+    // exact sign test: a coefficient such as -1e-9 is still negative
+    let sign = if value < 0.0 {
         "- "
     } else if is_first {
         ""
